@@ -686,7 +686,17 @@ def run_threads(ctx, rng, job):
         ts.append(threading.Thread(target=mutator))
     for t in ts:
         t.start()
-    time.sleep(secs)
+    # Run length is decided by logical progress (mutations performed), not by the wall clock;
+    # `secs` only scales the targets and the (generous) watchdog.
+    want_mut = int(job.get('mutations', 600 * secs)) if mode == 'mutator' else 0
+    deadline = time.time() + 20 * secs + 60
+    t_min = time.time() + min(secs, 2)
+    while time.time() < deadline:
+        time.sleep(0.05)
+        if errors:
+            break
+        if time.time() >= t_min and stats['mutations'] >= want_mut:
+            break
     stop[0] = True
     for t in ts:
         t.join(60)
